@@ -39,7 +39,7 @@ type CW struct {
 // modulo the number of addressable stores (for queries/gc the backend is the last one).
 type Op struct {
 	Kind string `json:"kind"`
-	// put del delvis batch flush push gc get seek async dseek dasync dput ddel dget window
+	// put del delvis batch flush failflush push gc get seek async dseek dasync dput ddel dget window rewrite
 	At    int      `json:"at,omitempty"`
 	K     int      `json:"k,omitempty"`
 	V     vt.Bytes `json:"v,omitempty"`
@@ -58,6 +58,9 @@ type Op struct {
 	ID         int32    `json:"id,omitempty"`    // dao ops: contract id
 	DK         vt.Bytes `json:"dk,omitempty"`    // dao ops dput/ddel/dget: contract-relative key
 	Inner      []Op     `json:"inner,omitempty"` // window: ops executed while bottom.Persist() is blocked inside PutChangeSet
+	Fail       bool     `json:"fail,omitempty"`  // window: the held PutChangeSet fails (backend error) instead of writing
+	Retry      bool     `json:"retry,omitempty"` // window with Fail: a successful Persist follows
+	Del        bool     `json:"del,omitempty"`   // rewrite: delete instead of put
 	Span       *Op      `json:"span,omitempty"`  // window: an async query started inside the window and drained after release
 }
 
@@ -293,18 +296,22 @@ type profile struct {
 var (
 	profPlain = profile{
 		writes:     []string{"put", "put", "put", "put", "put", "del", "delvis", "delvis", "batch"},
-		structural: []string{"flush", "flush", "flush", "push", "gc"},
+		structural: []string{"flush", "flush", "flush", "push", "gc", "failflush"},
 		queries:    []string{"get", "seek", "seek", "seek", "async", "async", "async"},
 	}
 	profDao = profile{
 		writes:     []string{"put", "dput", "dput", "dput", "dput", "ddel", "delvis", "delvis", "batch"},
-		structural: []string{"flush", "flush", "flush", "push"},
+		structural: []string{"flush", "flush", "flush", "push", "failflush"},
 		queries:    []string{"dget", "dseek", "dseek", "dseek", "dasync", "dasync", "dasync", "async"},
 	}
 	profGated = profile{
 		writes:     []string{"put", "put", "put", "put", "put", "del", "delvis", "delvis", "batch"},
-		structural: []string{"flush", "push", "window", "window", "window"},
+		structural: []string{"flush", "push", "failflush", "window", "window", "window", "window"},
 		queries:    []string{"get", "seek", "async"},
+	}
+	kindsWindowFail = []string{
+		"rewrite", "rewrite", "rewrite", "rewrite", "rewrite", "put", "del", "delvis", "batch", "flush",
+		"get", "seek", "async",
 	}
 	kindsWindow = []string{
 		"put", "put", "del", "delvis", "batch", "flush", "push",
@@ -343,6 +350,15 @@ func (g *genCtx) genOp(t *rapid.T, kinds []string) Op {
 	case "del":
 		op.At = rapid.IntRange(0, maxLayers-1).Draw(t, "at")
 		op.K = g.genWrittenKey(t)
+	case "failflush":
+		op.Mode = rapid.IntRange(0, 1).Draw(t, "mode")
+	case "rewrite":
+		op.K = rapid.IntRange(0, 40).Draw(t, "rk")
+		if rapid.IntRange(0, 2).Draw(t, "rdel") == 0 {
+			op.Del = true
+		} else {
+			op.V = genVal(t, "v")
+		}
 	case "delvis":
 		// delete the K-th key (modulo) currently visible from the addressed layer: a tombstone over a live lower value
 		op.At = genAt(t, "at")
@@ -400,7 +416,14 @@ func (g *genCtx) genOp(t *rapid.T, kinds []string) Op {
 			op.V = genVal(t, "v")
 		}
 	case "window":
-		op.Inner = rapid.SliceOfN(rapid.Custom(func(t *rapid.T) Op { return g.genOp(t, kindsWindow) }), 0, 8).Draw(t, "inner")
+		op.Fail = rapid.IntRange(0, 9).Draw(t, "win_fail") < 4
+		kinds := kindsWindow
+		if op.Fail {
+			kinds = kindsWindowFail
+			op.Retry = rapid.IntRange(0, 9).Draw(t, "win_retry") < 6
+			op.Mode = rapid.IntRange(0, 1).Draw(t, "win_mode")
+		}
+		op.Inner = rapid.SliceOfN(rapid.Custom(func(t *rapid.T) Op { return g.genOp(t, kinds) }), 0, 8).Draw(t, "inner")
 		if rapid.IntRange(0, 2).Draw(t, "span_any") == 0 {
 			sp := g.genAsync(t, "async")
 			sp.FlushAt = 0
@@ -435,6 +458,17 @@ func genCaseWith(t *rapid.T, backends []string, dao, gated bool) Case {
 		}
 		g.keys = append(g.keys, append(bytes.Clone(ck[:l]), ck...))
 		g.pairs = append(g.pairs, pair{pc: len(g.keys) - 1, c: j, plen: l})
+	}
+	if gated {
+		// both internal maps (STStorage/STTempStorage vs the rest) must hold keys of a batch in flight
+		other := []byte{0x01, 0x03}
+		if hot[0] != 0x70 && hot[0] != 0x71 {
+			other = []byte{0x70, 0x71}
+		}
+		no := rapid.IntRange(1, 3).Draw(t, "nother")
+		for i := 0; i < no; i++ {
+			g.keys = append(g.keys, append([]byte{rapid.SampledFrom(other).Draw(t, "other_fb")}, genTail(t, 0, 2, "other_t")...))
+		}
 	}
 	c.Keys = g.keys
 	prof := profPlain
